@@ -1,11 +1,13 @@
 package sim
 
 import (
+	"context"
 	"fmt"
 	"testing"
 	"time"
 
 	"github.com/herumi/bls-eth-go-binary/bls"
+	distributed "github.com/wealdtech/go-eth2-wallet-distributed"
 )
 
 // lifeRef is the reference lifecycle of one (instance, account) pair, maintained from observed facts.
@@ -173,14 +175,26 @@ func runDKGLifecycle(t *testing.T, rc *RunCtx) {
 	defer c.Close()
 	co := &coordinator{c: c}
 	nodes := c.Nodes
-	accts := []string{"Wallet 3/life-a", "Wallet 3/life-b", "Wallet 3/life-c"}[:1+ch.Pick(3, 0)]
+	// A quarter of the runs generate into a wallet that was created (as an operator would, with the wallet tool) after the
+	// instances started: it is in every instance's store and in no instance's start-up cache.
+	wn := "Wallet 3"
+	if ch.Pick(4, 0) == 3 {
+		wn = "Late"
+		for _, n := range nodes {
+			if _, err := distributed.CreateWallet(context.Background(), wn, n.Pop.Store, n.Pop.Encryptor); err != nil {
+				t.Fatalf("late wallet on %s: %v", n.Name, err)
+			}
+		}
+		rc.Stats.Inc("life_runs_in_a_wallet_created_after_start", 1)
+	}
+	accts := []string{wn + "/life-a", wn + "/life-b", wn + "/life-c"}[:1+ch.Pick(3, 0)]
 	// A sixth of the runs range over many names (9-24): however many generations were opened and left behind, each
 	// name has a lifecycle of its own.
 	many := ch.Pick(6, 0) == 5
 	if many {
 		accts = nil
 		for i, k := 0, 9+ch.Pick(16, 0); i < k; i++ {
-			accts = append(accts, fmt.Sprintf("Wallet 3/life-%02d", i))
+			accts = append(accts, fmt.Sprintf("%s/life-%02d", wn, i))
 		}
 		rc.Stats.Inc("life_runs_over_many_names", 1)
 	}
